@@ -15,7 +15,8 @@ hypothesis `RingAt fs V (r V)` for every vertex — the ids of the faces around 
 * `dual_closed`: every directed side (F, G) of a dual face has its opposite (G, F) in the dual face of the other end of the primal
   edge the two faces share — the dual of a closed surface is closed, its faces are glued along opposite directions;
 * `dual_face_simple`: no dual face repeats a vertex.
-Not proved: each directed dual side lies in ONE dual face (needs: two primal faces share at most one edge).
+* `dual_side_unique`, `dual_oriented` (round 7): when two primal faces share at most one edge, each directed dual side lies in ONE
+  dual face — the dual is consistently oriented.
 -/
 namespace Mouette.Props.C14
 open Mouette.Generated.C14 Mouette.Generated.C14Solids Mouette.MeshCheck Mouette.EdgeCount Mouette.C14Dual
@@ -98,6 +99,22 @@ theorem dual_closed (hnd : (dirEdges fs).Nodup) (hs : ∀ f ∈ fs, f.Nodup) (hi
   subst this
   exact hG'
 
+/-- a directed side (F, G) of a dual face lies in the dual face of ONE vertex only, when two primal faces share at most one edge -/
+theorem dual_side_unique (hsh : ShareAtMostOneEdge fs) (V V' : Nat) (hV : V < nV) (hV' : V' < nV) (p : Nat × Nat)
+    (h1 : p ∈ sides (r V)) (h2 : p ∈ sides (r V')) : V = V' := by
+  obtain ⟨w, a1, a2⟩ := (hr V hV).step p h1
+  obtain ⟨w', b1, b2⟩ := (hr V' hV').step p h2
+  have := hsh p.1 p.2 (V, w) (V', w') a1 a2 b1 b2
+  exact (Prod.mk.injEq _ _ _ _ ▸ this).1
+
+/-- hence the dual is consistently oriented: all directed sides of all dual faces are pairwise distinct -/
+theorem dual_oriented (hsh : ShareAtMostOneEdge fs) : (dirEdges (dualFaces nV r)).Nodup := by
+  rw [(dual_loops 0 nV (fun _ => ()) r).2.1]
+  apply dirEdges_nodup_addressed _ _ List.nodup_range
+  · intro V hV; exact sides_nodup _ (hr V (List.mem_range.mp hV)).nodup
+  · intro V hV V' hV' e h1 h2
+    exact dual_side_unique fs nV r hr hsh V V' (List.mem_range.mp hV) (List.mem_range.mp hV') e h1 h2
+
 end rings
 
 /-- non-vacuity: the ring `vertex_to_faces(0)` of the tetrahedron satisfies the hypothesis -/
@@ -119,6 +136,10 @@ example : RingAt tetrahedronFaces 0 [1, 2, 3] := by
     · exact ⟨3, by decide, by decide⟩
     · exact ⟨1, by decide, by decide⟩
     · exact ⟨2, by decide, by decide⟩
+/-- non-vacuity of `ShareAtMostOneEdge`: decided on the translated tables -/
+example : ShareAtMostOneEdge tetrahedronFaces ∧ ShareAtMostOneEdge icosahedronFaces ∧ ShareAtMostOneEdge hexahedronFacesQuad :=
+  ⟨shareAtMostOneEdge_of_check _ (by decide +kernel), shareAtMostOneEdge_of_check _ (by decide +kernel),
+    shareAtMostOneEdge_of_check _ (by decide +kernel)⟩
 example : dualFaces 2 (fun V => [V, V + 1]) = [[0, 1], [1, 2]] ∧ dualVerts 3 (fun F => 10 * F) = [0, 10, 20] := by decide
 
 end Mouette.Props.C14
